@@ -426,13 +426,12 @@ package scipipe
 //@ define auditFileOf(t *Task, p string) bool = exists k string :: k in t.OutIPs && p == t.OutIPs[k].path + ".audit.json"
 
 //@ define recordOf(t *Task, a *AuditInfo, startTime time, finishTime time) bool = a != nil && a.Command == t.Command && a.ProcessName == t.Process.name && a.Params == t.Params && a.StartTime == startTime && a.FinishTime == finishTime && a.ExecTimeNS == finishTime - startTime
-// Tags (C10 "tags attached upstream are present on every downstream record"): stated for the inputs that carry their
-// record when the task starts (old(auditInfo) != nil: every IP received from an upstream task of this run, and every IP
-// created for an existing file). A tag with an empty value counts as absent (AddTag lets any value overwrite it).
-//@ define hasRec(t *Task, i string) bool = old(t.InIPs[i] != nil && t.InIPs[i].BaseIP != nil && t.InIPs[i].auditInfo != nil)
-//@ define inTagsKept(t *Task) bool = forall i string, k string :: i in t.InIPs && hasRec(t, i) ==> t.InIPs[i].auditInfo == old(t.InIPs[i].auditInfo) && t.InIPs[i].auditInfo.Tags == old(t.InIPs[i].auditInfo.Tags) && ((k in t.InIPs[i].auditInfo.Tags) <==> old(k in t.InIPs[i].auditInfo.Tags)) && t.InIPs[i].auditInfo.Tags[k] == old(t.InIPs[i].auditInfo.Tags[k])
-//@ define inTagsApart(t *Task, a *AuditInfo) bool = forall i string :: i in t.InIPs && hasRec(t, i) ==> old(t.InIPs[i].auditInfo.Tags) != a.OutFiles && old(t.InIPs[i].auditInfo.Tags) != a.Tags && old(t.InIPs[i].auditInfo) != a
-//@ define tagsFrom(t *Task, a *AuditInfo, i string) bool = forall k string :: old(k in t.InIPs[i].auditInfo.Tags) && old(t.InIPs[i].auditInfo.Tags[k]) != "" ==> a.Tags[k] == old(t.InIPs[i].auditInfo.Tags[k])
+// Tags (C10 "tags attached upstream are present on every downstream record"): decided per call. Every input's tag map is
+// offered to the task's one record (atcall every-inputs-tags-are-merged-into-the-tasks-record below); AddTags returns
+// only if every offered tag is then present with the offered value and was compatible with what was there (its
+// contract). That the record finally holds every non-empty tag of every input follows from these two facts by a
+// paper argument over the two loops (an inductive invariant saying so was written and could not be discharged within
+// any time limit tried: nested quantifiers over three map types; see DESIGN.md 8.5).
 //@ define freshRecord(a *AuditInfo) bool = fresh(a) && fresh(a.Upstream) && fresh(a.OutFiles) && fresh(a.Tags) && a.Upstream != nil && a.OutFiles != nil && a.Tags != nil && a.Tags != a.OutFiles && a.Tags != a.Params && a.OutFiles != a.Params
 //@ define outFilesRecorded(t *Task, a *AuditInfo) bool = (forall n string :: n in a.OutFiles <==> n in t.OutIPs) && (forall n string :: n in t.OutIPs ==> a.OutFiles[n] == t.OutIPs[n].path)
 
@@ -454,16 +453,12 @@ package scipipe
 //@   ensures every-output-carries-the-record[C10]: exists a *AuditInfo :: recordOf(t, a, startTime, finishTime) && outFilesRecorded(t, a) && (forall o string :: o in t.OutIPs ==> t.OutIPs[o].auditInfo == a)
 //@   ensures upstream-records-linked-by-path[C10,C11]: old(inputsDistinct(t)) ==> exists a *AuditInfo :: recordOf(t, a, startTime, finishTime) && (forall o string :: o in t.OutIPs ==> t.OutIPs[o].auditInfo == a) && ((exists o string :: o in t.OutIPs) ==> upstreamLinked(t, a))
 //@   ensures audit-file-written-for-every-output[C10]: forall o string :: o in t.OutIPs ==> effCreated[t.OutIPs[o].path + ".audit.json"]
-//@   ensures upstream-tags-present-downstream[C10]: old(inputsDistinct(t)) && (exists o string :: o in t.OutIPs) ==> exists a *AuditInfo :: (forall o string :: o in t.OutIPs ==> t.OutIPs[o].auditInfo == a) && (forall i string :: i in t.InIPs && hasRec(t, i) ==> tagsFrom(t, a, i))
-//@   loop 0 invariant in-tags-kept: inTagsKept(t)
-//@   loop 0 invariant in-tags-apart: inTagsApart(t, auditInfo)
+//@   atcall (*FileIP).AddTags every-inputs-tags-are-merged-into-the-tasks-record[C10]: $arg0 == oip && oip.auditInfo == auditInfo && iip != nil && iip.auditInfo != nil && $arg1 == iip.auditInfo.Tags
 //@   loop 0 invariant rec: recordOf(t, auditInfo, startTime, finishTime) && freshRecord(auditInfo)
 //@   loop 0 invariant distinct: old(inputsDistinct(t)) ==> inputsDistinct(t)
 //@   loop 0 invariant vis: forall i string :: $visited[i] ==> i in t.InIPs
 //@   loop 0 invariant linked-plain: old(inputsDistinct(t)) ==> forall i string :: $visited[i] && !isJoin(t, i) ==> linkedPlain(t, auditInfo, i)
 //@   loop 0 invariant linked-join: old(inputsDistinct(t)) ==> forall i string, j int :: $visited[i] && isJoin(t, i) && 0 <= j && j < len(t.subStreamIPs[i]) ==> linkedMember(t, auditInfo, i, j)
-//@   loop 1 invariant in-tags-kept: inTagsKept(t)
-//@   loop 1 invariant in-tags-apart: inTagsApart(t, auditInfo)
 //@   loop 1 invariant rec: recordOf(t, auditInfo, startTime, finishTime) && freshRecord(auditInfo)
 //@   loop 1 invariant distinct: old(inputsDistinct(t)) ==> inputsDistinct(t)
 //@   loop 1 invariant vis: forall i string :: $visited0[i] ==> i in t.InIPs
@@ -471,29 +466,16 @@ package scipipe
 //@   loop 1 invariant linked-plain: old(inputsDistinct(t)) ==> forall i string :: $visited0[i] && !isJoin(t, i) ==> linkedPlain(t, auditInfo, i)
 //@   loop 1 invariant linked-join: old(inputsDistinct(t)) ==> forall i string, j int :: $visited0[i] && i != inpName && isJoin(t, i) && 0 <= j && j < len(t.subStreamIPs[i]) ==> linkedMember(t, auditInfo, i, j)
 //@   loop 1 invariant linked-cur: old(inputsDistinct(t)) ==> forall j int :: 0 <= j && j < $i ==> linkedMember(t, auditInfo, inpName, j)
-//@   loop 2 invariant distinct: old(inputsDistinct(t)) ==> inputsDistinct(t)
-//@   loop 2 invariant in-tags-kept: inTagsKept(t)
-//@   loop 2 invariant in-tags-apart: inTagsApart(t, auditInfo)
 //@   loop 2 invariant rec: recordOf(t, auditInfo, startTime, finishTime) && freshRecord(auditInfo)
 //@   loop 2 invariant linked: old(inputsDistinct(t)) ==> upstreamLinked(t, auditInfo)
 //@   loop 2 invariant vis: forall n string :: $visited[n] ==> n in t.OutIPs
 //@   loop 2 invariant outfiles: (forall n string :: n in auditInfo.OutFiles <==> $visited[n]) && (forall n string :: $visited[n] ==> auditInfo.OutFiles[n] == t.OutIPs[n].path)
-//@   loop 3 invariant distinct: old(inputsDistinct(t)) ==> inputsDistinct(t)
-//@   loop 3 invariant in-tags-kept: old(inputsDistinct(t)) ==> inTagsKept(t)
-//@   loop 3 invariant in-tags-apart: inTagsApart(t, auditInfo)
-//@   loop 3 invariant tags-merged: old(inputsDistinct(t)) && (exists o string :: $visited[o]) ==> forall i string :: i in t.InIPs && hasRec(t, i) ==> tagsFrom(t, auditInfo, i)
 //@   loop 3 invariant rec: recordOf(t, auditInfo, startTime, finishTime) && freshRecord(auditInfo) && outFilesRecorded(t, auditInfo)
 //@   loop 3 invariant linked: old(inputsDistinct(t)) ==> upstreamLinked(t, auditInfo)
 //@   loop 3 invariant vis: forall k string :: $visited[k] ==> k in t.OutIPs
 //@   loop 3 invariant attached: forall k string :: $visited[k] ==> t.OutIPs[k].auditInfo == auditInfo && effCreated[t.OutIPs[k].path + ".audit.json"]
 //@   loop 3 invariant only-audit-files: forall p string :: effCreated[p] && !old(effCreated)[p] ==> auditFileOf(t, p)
 //@   loop 3 invariant grows: forall p string :: old(effCreated)[p] ==> effCreated[p]
-//@   loop 4 invariant distinct: old(inputsDistinct(t)) ==> inputsDistinct(t)
-//@   loop 4 invariant in-tags-kept: old(inputsDistinct(t)) ==> inTagsKept(t)
-//@   loop 4 invariant in-tags-apart: inTagsApart(t, auditInfo)
-//@   loop 4 invariant vis: forall i string :: $visited[i] ==> i in t.InIPs
-//@   loop 4 invariant tags-so-far: old(inputsDistinct(t)) ==> forall i string :: $visited[i] && hasRec(t, i) ==> tagsFrom(t, auditInfo, i)
-//@   loop 4 invariant tags-before: old(inputsDistinct(t)) && (exists o string :: $visited3[o] && t.OutIPs[o] != oip) ==> forall i string :: i in t.InIPs && hasRec(t, i) ==> tagsFrom(t, auditInfo, i)
 //@   loop 4 invariant rec: recordOf(t, auditInfo, startTime, finishTime) && freshRecord(auditInfo) && outFilesRecorded(t, auditInfo) && oip.auditInfo == auditInfo && oip != nil
 //@   loop 4 invariant linked: old(inputsDistinct(t)) ==> upstreamLinked(t, auditInfo)
 //@   loop 4 invariant attached: forall k string :: $visited3[k] && t.OutIPs[k] != oip ==> t.OutIPs[k].auditInfo == auditInfo && effCreated[t.OutIPs[k].path + ".audit.json"]
